@@ -500,8 +500,12 @@ func normalizeValue(
 
 		return normalizeStructValue(opts, ctx, v)
 	default:
-		if v.IsNil() {
-			return &cfgNil{cfgPrimitive{ctx, opts.meta}}, nil
+		// IsNil is only defined for the kinds that can be nil
+		switch v.Kind() {
+		case reflect.Chan, reflect.Func, reflect.Interface, reflect.Ptr, reflect.UnsafePointer:
+			if v.IsNil() {
+				return &cfgNil{cfgPrimitive{ctx, opts.meta}}, nil
+			}
 		}
 		return nil, raiseUnsupportedInputType(ctx, opts.meta, v)
 	}
